@@ -750,6 +750,11 @@ class InterpolatedPredictionStrategy(DefaultPredictionStrategy):
         if self.uses_wiski:
             precomputed_cache = self.fantasy_covar_cache
             fps = settings.fast_pred_samples.on()
+            # The cache holds (inside_root, None) or (None, root), depending on `fast_pred_samples` when it was
+            # computed: recompute it when it was built under the other setting (as in the non-fantasy branch below).
+            if (fps and precomputed_cache[0] is None) or (not fps and precomputed_cache[1] is None):
+                pop_from_cache(self, "fantasy_covar_cache")
+                precomputed_cache = self.fantasy_covar_cache
             if fps:
                 root = left_interp(test_interp_indices, test_interp_values, precomputed_cache[0].to_dense())
                 res = RootLinearOperator(root)
